@@ -263,6 +263,20 @@ def c13(cx):
     items = [{'name': f'fragment/{cx.seed}/{5000 + i}', 'src': gen.fragment(cx.seed, 5000 + i, max_stmts=4)[0]} for i in range(n)]
     items += [{'name': f'callfam/{cx.seed}/{i}', 'src': gen.callfam(cx.seed, i)[0]} for i in range(0, gen.N_CALLFAM, 8)]
     items.append({'name': 'known:F24', 'src': "#pragma version 8\nload 0\nbnz right\ntxn CloseRemainderTo\nglobal ZeroAddress\n==\nassert\nb join\nright:\ntxn TypeEnum\nint axfer\n==\nassert\njoin:\nint 1\nreturn\n"})
+    # an accepting exit INSIDE a subroutine (`int 1; return` in the callee) that no check covers, while every exit of the main
+    # code is covered: the transaction is vulnerable in both modes
+    SUBEXIT = {'rekey-to': ["txn RekeyTo", "global ZeroAddress", "=="], 'missing-fee-check': ["txn Fee", "int 1000", "<="],
+               'is-updatable': ["txn OnCompletion", "int UpdateApplication", "!="], 'is-deletable': ["txn OnCompletion", "int DeleteApplication", "!="]}
+    for det, chk in SUBEXIT.items():
+        for variant in range(3):
+            app = det.startswith('is-')
+            head = ["#pragma version 8"] + (["txn ApplicationID", "pop"] if app else [])
+            # the callee never returns (no retsub): it approves or fails by itself
+            sub = {0: ["f:", "int 1", "return"],
+                   1: ["f:", "callsub g", "err", "g:", "load 1", "bnz no", "int 1", "return", "no:", "err"],
+                   2: ["f:", "load 1", "switch bad ok", "bad:", "err", "ok:", "int 1", "return"]}[variant]
+            body = ["load 0", "bnz other"] + chk + ["assert", "int 1", "return", "other:", "callsub f", "err"] + sub
+            items.append({'name': f'subexit/{det}/{variant}', 'src': "\n".join(head + body) + "\n"})
     res = engine.run_items_with(single_one, items)
     cases, known = 0, 0
     for r in res:
